@@ -603,6 +603,22 @@ impl Parser<'_, '_> {
                 | Token::IpV6(_)
                 | Token::Asn(_)
                 | Token::String(_)
+                | Token::Char(_)
+                | Token::Hex(_)
+                | Token::FStringStart
+                | Token::Keyword(
+                    Keyword::If
+                        | Keyword::Match
+                        | Keyword::While
+                        | Keyword::For
+                        | Keyword::Return
+                        | Keyword::Accept
+                        | Keyword::Reject
+                        | Keyword::Super
+                        | Keyword::Pkg
+                        | Keyword::Dep
+                        | Keyword::Std
+                )
         )
     }
 
